@@ -160,13 +160,30 @@ theorem post_format (name date body : Bytes) :
   have h : splitVerbs (ascii ((Generated.stringConsts.lookup "NewsTemplate").getD "") ++ [13]) =
       [ascii "From ", ascii " (", ascii "):\n\n",
        ascii "\n\n__________________________________________________________" ++ [13]] := by decide +kernel
-  simp only [formatPost, h, fill, List.append_assoc]
+  simp only [formatPost, h, fill_four, List.append_assoc]
 
 /-- A post is never empty, so two posts never collapse into one on the board. -/
 theorem post_nonempty (name date body : Bytes) :
     formatPost (ascii ((Generated.stringConsts.lookup "NewsTemplate").getD "")) name date body ≠ [] := by
   rw [(post_format name date body).1]
   simp [nl2cr, ascii]
+
+/-- One post through the handler: the board becomes the post followed by the previous board, the file
+    holds exactly that, and every connected client is sent the post text exactly once. -/
+theorem post_announced_and_persisted (template : Bytes) (clients : List Nat) (name date body : Bytes) (s : Store) :
+    (handlePost template clients name date body s).1.data = formatPost template name date body ++ s.data ∧
+    (handlePost template clients name date body s).1.file = (handlePost template clients name date body s).1.data ∧
+    (handlePost template clients name date body s).2.map (·.1) = clients ∧
+    ∀ e ∈ (handlePost template clients name date body s).2, e.2 = formatPost template name date body := by
+  refine ⟨by simp [handlePost, execOp_post], by simp [handlePost, execOp_post], ?_, ?_⟩
+  · simp only [handlePost, List.map_map]
+    induction clients with
+    | nil => rfl
+    | cons c cs ih => simp [ih]
+  intro e he
+  simp only [handlePost, List.mem_map] at he
+  obtain ⟨c, _, rfl⟩ := he
+  rfl
 
 /-! Obligations over facts regenerated from /repo's source on every run. -/
 
